@@ -24,6 +24,9 @@ def Partition (inst ncomp : Nat) (u : Sim.U K) : Prop := ∀ n ∈ u.w.net.nodes
 def targetsB (ncomp : Nat) : Sim.Act K → Bool
   | .ccLeft _ c => decide (c < ncomp)
   | .trial _ _ c _ => decide (c < ncomp)
+  | .sivrInfect _ c _ _ _ _ => decide (c < ncomp)
+  | .vaccinate => true
+  | .plainLeave _ => true
   | a => C01.shippedB a
 
 theorem partition_change (cfg : Comp.Cfg) (wf : WfCfg cfg) (w : W) (inst inst' ncomp : Nat) (n : Node) (c : Nat) (hc : c < ncomp)
@@ -36,6 +39,11 @@ theorem partition_change (cfg : Comp.Cfg) (wf : WfCfg cfg) (w : W) (inst inst' n
   split
   · exact ⟨c, hc, rfl⟩
   · exact h x hx
+
+theorem popF_w (u u' : Sim.U K) (r : K) (h : Sim.popF u = some (r, u')) : u'.w = u.w ∧ u'.vacc = u.vacc := by
+  unfold Sim.popF at h; split at h
+  · simp only [Option.some.injEq, Prod.mk.injEq] at h; rw [← h.2]; exact ⟨rfl, rfl⟩
+  · simp at h
 
 theorem handler_partition (cfg : Sim.Cfg K) (wf : WfCfg cfg.comp) (inst ncomp : Nat) (t : K) (e : Elem) :
     ∀ (acts : List (Sim.Act K)), (∀ a ∈ acts, targetsB ncomp a = true) → ∀ (s : St K (Sim.U K) Elem), Partition inst ncomp s.u →
@@ -86,9 +94,29 @@ theorem handler_partition (cfg : Sim.Cfg K) (wf : WfCfg cfg.comp) (inst ncomp : 
     | addEdge _ _ _ => simp [targetsB, C01.shippedB] at ha
     | rmEdge _ _ _ => simp [targetsB, C01.shippedB] at ha
     | adAdd _ _ _ => simp [targetsB, C01.shippedB] at ha
-    | vaccinate => simp [targetsB, C01.shippedB] at ha
-    | sivrInfect _ _ _ _ _ _ => simp [targetsB, C01.shippedB] at ha
-    | plainLeave _ => simp [targetsB, C01.shippedB] at ha
+    | vaccinate => simp only [Sim.runActs, exec]; exact ih hs' _ h
+    | plainLeave l => simp only [Sim.runActs, exec]; exact ih hs' _ h
+    | sivrInfect i c off eff ln lv =>
+      have hc : c < ncomp := by simpa [targetsB] using ha
+      have take_ok : ∀ (u : Sim.U K) (loc : Nat), u.w = s.u.w →
+          Partition inst ncomp (Sim.markHit (Sim.markOccupied
+            ({ u with w := updLocus (changeCompartment cfg.comp u.w i e.1 c) loc (·.add (eN e.1)) } : Sim.U K) i e t) (some i) e.1 t) := by
+        intro u loc hw
+        unfold Partition; rw [C01.markHit_w, C01.markOccupied_w, hw]
+        exact partition_change cfg.comp wf s.u.w i inst ncomp e.1 c hc h
+      simp only [Sim.runActs, exec]
+      split
+      · rename_i tv hv
+        split
+        · split
+          · exact h
+          · rename_i r u' hr
+            have hw : u'.w = s.u.w := (popF_w s.u u' r hr).1
+            split
+            · simp only [exec]; exact ih hs' _ (take_ok u' lv hw)
+            · simp only [exec]; apply ih hs'; unfold Partition; rw [hw]; exact h
+        · simp only [exec]; exact ih hs' _ (take_ok s.u ln rfl)
+      · simp only [exec]; exact ih hs' _ (take_ok s.u ln rfl)
     | adDel _ _ => simp [targetsB, C01.shippedB] at ha
 
 /-! ### arrows: what a fired event changes -/
@@ -213,11 +241,6 @@ theorem zero_total_rate (rs : List (Nat × Rat × Nat)) (sizes : Nat → Nat) (h
     · exact ih (fun r hr => hp r (List.mem_cons_of_mem _ hr)) hs0 r hr hpos
 
 /-! ### vaccination (SIvR.infect) -/
-
-theorem popF_w (u u' : Sim.U K) (r : K) (h : Sim.popF u = some (r, u')) : u'.w = u.w ∧ u'.vacc = u.vacc := by
-  unfold Sim.popF at h; split at h
-  · simp only [Option.some.injEq, Prod.mk.injEq] at h; rw [← h.2]; exact ⟨rfl, rfl⟩
-  · simp at h
 
 /-- **a vaccine of efficacy 1 that has taken effect prevents infection**: when the node is vaccinated, the offset has passed and
     the random number drawn does not exceed the efficacy (always the case for efficacy 1, random numbers being below 1), the
